@@ -4,3 +4,4 @@ pub mod c03;
 pub mod c15;
 pub mod c02;
 pub mod c14;
+pub mod c06;
